@@ -6,8 +6,8 @@ import json, os, re, subprocess, sys, concurrent.futures as cf
 SEEDED = "/verif/seeded"
 EXTRA = {  # checks tried after the change's own property (first round: from the table in DESIGN.md 14)
  "C02-r7m1": ["C01", "C08"], "C02-r7m2": ["C12"], "C03-r7m2": ["C06", "C04"], "C04-r7m2": ["C14", "C05"], "C06-r7m1": ["C14"], "C08-r7m1": ["C10"], "C09-r7m1": ["C13"], "C11-r7m1": ["C07", "C08"], "C11-r7m2": ["C07"],
- "C13-r7m1": ["C11"], "C13-r7m2": ["C09"], "C14-r7m1": ["C06", "C01"], "C14-r7m2": ["C13", "C18"], "C15-r7m1": ["C01", "C02"], "C15-r7m2": ["C12", "C10"], "C16-r7m1": ["C03", "C09"], "C17-r7m2": ["C18"], "C18-r7m1": ["C12"],
- "C18-r7m2": ["C16", "C03"], "C19-r7m1": ["C18"], "C19-r7m2": ["C18"], "C20-r7m2": ["C16", "C18"], "C01-r7m2": ["C17", "C18"], "C07-r7m2": ["C11"],
+ "C13-r7m1": ["C11"], "C13-r7m2": ["C09"], "C14-r7m1": ["C06", "C01"], "C14-r7m2": ["C13"], "C15-r7m1": ["C01", "C02"], "C15-r7m2": ["C12", "C10"], "C16-r7m1": ["C03", "C09"], "C17-r7m2": ["C18"], "C18-r7m1": ["C12"],
+ "C18-r7m2": ["C16", "C03"], "C19-r7m1": ["C18"], "C19-r7m2": ["C18"], "C20-r7m2": ["C16", "C18"], "C01-r7m2": ["C17", "C18"], "C05-r7m1": ["C20"], "C05-r7m2": ["C13", "C04"],
  "C01-r6m1": ["C02", "C03"], "C02-r6m1": ["C01", "C08"], "C02-r6m2": ["C14"], "C03-r6m1": ["C15", "C06"], "C03-r6m2": ["C01"], "C04-r6m1": ["C07"], "C04-r6m2": ["C05"],
  "C06-r6m1": ["C16"], "C06-r6m2": ["C12"], "C07-r6m1": ["C10", "C09"], "C08-r6m1": ["C10"], "C08-r6m2": ["C10"], "C09-r6m2": ["C18", "C16"], "C10-r6m2": ["C04", "C15"],
  "C11-r6m1": ["C12", "C01"], "C11-r6m2": ["C06"], "C12-r6m1": ["C10"], "C12-r6m2": ["C15"], "C13-r6m1": ["C09"], "C14-r6m1": ["C01"], "C16-r6m1": ["C09"], "C16-r6m2": ["C18"],
